@@ -17,7 +17,7 @@ RULE = ("One fiber (leaf or 2-level; owned root of a tensor with rank format C o
         "prune, and lazy results (& | - << project prune) iterated twice and materialised with fromLazy; every "
         "request with every kind of legal start_pos. Oracle: model list of (coordinate, stored index | default); "
         "payload identity; snapshot unchanged (non-ref) or grown by exactly the visited absent coordinates (ref); "
-        "getSavedPos after a shortcut traversal. Non-trivial: fiber with >=1 explicit default (or empty/all-default "
+        "the position a shortcut traversal saves continues the traversal correctly. Non-trivial: fiber with >=1 explicit default (or empty/all-default "
         "sub-fiber) and >=2 non-empty elements and a request with a proper sub-range, a shortcut, a reversing "
         "projection or a lazy re-iteration. Distinct = SHA-1 of the case.")
 ASSUMPTIONS = ["start_pos is legal: in range and no presented element of the request precedes it",
@@ -51,14 +51,17 @@ def request(draw, shape):
         r["ref"] = draw(st.booleans())
         r["s"], r["e"], r["step"] = max(lo, 0), hi, draw(st.sampled_from([1, 1, 2]))
         r["n_others"] = draw(st.integers(0, 2))
+        r["grow"] = draw(st.sampled_from([0, 0, 1, 3]))      # the other fibers may declare a larger shape
     if op == "project":
         r["m"] = draw(st.sampled_from([1, 1, -1, 2, -2]))
-        r["k"] = draw(st.integers(-3, 12))
+        r["k"] = draw(st.one_of(st.sampled_from([0, 0, 1, -1]), st.integers(-3, 12)))
         if draw(st.booleans()):
             a = draw(st.integers(-16, 24))
             r["interval"] = [a, a + draw(st.integers(0, 12))]
         else:
             r["interval"] = None
+        # (an interval that starts at / next to the image of a stored coordinate: where a shortcut is legal or not)
+        r["ivrel"] = draw(st.one_of(st.none(), st.tuples(st.integers(0, 7), st.integers(-1, 1), st.integers(0, 12))))
     if op == "prune":
         r["keep"] = draw(st.lists(st.booleans(), min_size=1, max_size=8))
     if op == "lazy":
@@ -75,13 +78,19 @@ def cases(draw):
     default = draw(st.sampled_from([0, 0, 0, 2]))
     f = draw(fiber_desc(shape, nested, default))
     # (format U iterates the active range only and is documented not to work with elements outside it)
+    f["active"] = None
     if f["fmt"] != "U" and draw(st.booleans()):
         a0 = draw(st.integers(0, shape))
         f["active"] = [a0, draw(st.integers(a0, shape))]
         if f["active"][0] == f["active"][1] == 0:
             f["active"] = None     # (0, 0) is falsy-free but degenerate: keep the default instead
-    else:
-        f["active"] = None
+    elif f["fmt"] == "U" and draw(st.booleans()):
+        # an uncompressed rank with a narrowed active range: legal as long as every element lies inside it
+        cs = [c for c, _ in f["elems"]]
+        a0 = draw(st.integers(0, min(cs) if cs else shape - 1))
+        a1 = draw(st.integers((max(cs) if cs else a0) + 1, shape))
+        if (a0, a1) != (0, 0):
+            f["active"] = [a0, a1]
     others = [draw(fiber_desc(shape, nested, default, allow_u=False)) for _ in range(2)]
     reqs = draw(st.lists(request(shape), min_size=1, max_size=5))
     return {"shape": shape, "nested": nested, "default": default, "fiber": f, "others": others, "requests": reqs}
@@ -203,9 +212,14 @@ def check(case, rec):
             want = S.occ(s, e)
             S.compare(got, want, f"{op}({s},{e},sp={sp})")
             if sp is not None and want:
-                if f.getSavedPos() != want[-1][1]:
-                    raise Violation("saved-pos", f"{op}: getSavedPos()={f.getSavedPos()} after a shortcut traversal, "
-                                    f"last yielded element is at position {want[-1][1]}")
+                # the position the traversal saved is itself a shortcut for going on behind the last element:
+                # wherever exactly it points, using it must not change what is yielded
+                sv, nxt = f.getSavedPos(), want[-1][0] + 1
+                if isinstance(sv, int) and 0 <= sv < len(f.coords) and \
+                        not any(S.nonempty[i] and S.coords[i] >= nxt for i in range(sv)):
+                    cont = pyl(f.iterRange(nxt, None, start_pos=sv))
+                    S.compare(cont, S.occ(nxt, None), f"iterRange({nxt}, None, start_pos=<saved by {op}: {sv}>)")
+                    rec.cls("continued-from-saved-pos")
                 rec.cls("shortcut")
                 interesting = True
             if want and len(want) < len(S.occ()):
@@ -248,7 +262,8 @@ def check(case, rec):
             S.compare(got, want, f"__iter__ (format {desc['fmt']})")
             S.unchanged("__iter__")
         elif op == "coiter":
-            others = [Subject(d, shape, nested, default) for d in case["others"][:r["n_others"]]]
+            others = [Subject(d, shape + r.get("grow", 0), nested, default) for d in case["others"][:r["n_others"]]]
+            rec.cls("coiter-shapes-differ", bool(others) and r.get("grow", 0) > 0)
             subs = [S] + others
             fibs = [x.fiber for x in subs]
             kind, ref = r["kind"], r["ref"]
@@ -283,6 +298,11 @@ def check(case, rec):
         elif op == "project":
             m, k, iv = r["m"], r["k"], r["interval"]
             trans = lambda c, m=m, k=k: m * c + k
+            if iv is not None and r.get("ivrel") and S.coords:
+                j, delta, length = r["ivrel"]
+                lo = trans(S.coords[j % len(S.coords)]) + delta
+                iv = [lo, lo + length]
+                rec.cls("interval-at-a-coordinate")
             pres = S.occ()
             img = [(trans(c), i) for c, i in pres]
             if m < 0:
@@ -297,7 +317,8 @@ def check(case, rec):
                 legal = [p for p in range(len(S.coords))
                          if p == 0 or (S.coords[p - 1] < iv[0]          # the library's own assertion
                                        and not any(S.nonempty[i] and trans(S.coords[i]) >= iv[0] for i in range(p)))]
-                sp = legal[r["sp"] % len(legal)]
+                # (the furthest legal shortcut is the one next to the boundary: take it every other time)
+                sp = legal[-1] if r["sp"] % 2 else legal[(r["sp"] // 2) % len(legal)]
                 kw["start_pos"] = sp
             lazy = f.project(trans_fn=trans, interval=tuple(iv) if iv else None, **kw)
             for rep in range(2):
